@@ -226,6 +226,18 @@ func (g *PipeGen) Op(kind string, s Schema, joinDepth int) (*Op, Schema) {
 					switch c.Ty {
 					case TInt:
 						x = Bin("+", cx, Num("1"))
+						// or from another column, or with the order of its values reversed
+						// (an earlier sort by this name says nothing about the new column)
+						switch (len(cand) + len(s) + i) % 3 {
+						case 1:
+							x = Bin("-", Num("0"), cx)
+						case 2:
+							for _, o := range cand {
+								if o.Ty == TInt && o.Name.Name != c.Name.Name {
+									x = &E{K: "name", Parts: []Ident{o.Name}}
+								}
+							}
+						}
 					case TStr:
 						x = Call("strcat", cx, StrLit("x", false))
 					default:
